@@ -111,6 +111,17 @@ def run(prop: str, tier: str, seed: int, replay: str | None, scratch: str) -> in
     except Exception as e:  # a translator crash is 'kernel unavailable', not a verdict
         ctx.gen_status["_error"] = f"{type(e).__name__}: {e}"
 
+    # 1a. the transcription tie: do the functions whose control flow the hand model transcribes still read, in
+    #     normal form, as the text they were transcribed from?  (harness/translate/skeleton.py)
+    if os.environ.get("VERIF_NO_TRANSCRIPT_TIE") != "1":
+        try:
+            from translate import skeleton
+            tr = skeleton.check(prop)
+            if tr:
+                ctx.gen_status["Transcription"] = tr
+        except Exception as e:  # noqa: BLE001
+            ctx.gen_status["Transcription_error"] = f"{type(e).__name__}: {e}"
+
     # 1b. has the code the hand-written parts of the model were validated against changed?  Not a verdict —
     #     it only moves this run to the thorough case counts (see harness/fingerprint.py)
     try:
